@@ -1,6 +1,6 @@
 from .props import HDR, standard
 
-CFS = ["CFS/zz_verif_cfs_keep_test.go"]
+CFS = ["CFS/zz_verif_cfs_keep_test.go", "CFS/zz_verif_cfs_sess_test.go"]
 
 
 def run(ctx):
